@@ -62,7 +62,10 @@ Inductive slot := SPrev | SCur | SNext.
 Definition get_slot (p : peer) (s : slot) : option keypair :=
   match s with SPrev => k_prev p | SCur => k_cur p | SNext => k_next p end.
 
-Record state := { s_tbl : list entry; s_peers : list peer }.
+(* s_gone: positions of peers that have been removed from the device (UAPI remove=true, or
+   SetPrivateKey with a key whose public half is that peer's key: a device never has itself as a peer) *)
+Record state := { s_tbl : list entry; s_peers : list peer; s_gone : list N }.
+Definition is_gone (st : state) (p : N) : bool := existsb (N.eqb p) (s_gone st).
 
 Inductive dgram :=
 | Raw (typeword len : N)                                     (* anything that is not a transport message of >= 32 bytes *)
@@ -72,6 +75,8 @@ Inductive event :=
 | Handshake (p idx key : N)    (* remote initiates, device answers with local index idx, remote confirms with a keepalive (counter 0) *)
 | HandshakeUnconf (p idx key : N)   (* the same without the confirmation: the key stays in the next slot *)
 | Restart                      (* device.Down(); device.Up(): every peer is stopped (ZeroAndFlushAll) and started again *)
+| Remove (p : N)               (* the peer is removed from the device: keypairs and index entries deleted, its allowed-IPs
+                                  leave the table, no handshake with it is possible any more *)
 | Age (p ns : N)               (* creation time of all keypairs of p moved ns into the past *)
 | Dgrams (l : list dgram).     (* datagrams delivered in this order *)
 
@@ -140,7 +145,7 @@ Definition recv1 (st : state) (d : dgram) : state * res :=
           (* replayFilter.ValidateCounter(counter, RejectAfterMessages) *)
           if negb (accept (k_filter k) ctr RejectAfterMessages) then (st, nothing) else
           let f' := fst (sstep (k_filter k) (Validate ctr RejectAfterMessages)) in
-          let st' := {| s_tbl := s_tbl st; s_peers := upd_slot (s_peers st) i cur (set_filter k f') |} in
+          let st' := {| s_tbl := s_tbl st; s_peers := upd_slot (s_peers st) i cur (set_filter k f'); s_gone := s_gone st |} in
           let rx := Some (i, blen plain + MinMessageSize) in
           match plain with
           | [] => (st', {| r_write := None; r_rx := rx |})          (* keepalive *)
@@ -177,8 +182,10 @@ Definition step (st : state) (ev : event) : state * list res :=
                      | Some x => set_nth (s_peers st) (N.to_nat p)
                                    {| k_prev := age_kp ns (k_prev x); k_cur := age_kp ns (k_cur x); k_next := age_kp ns (k_next x) |}
                      | None => s_peers st
-                     end |}, [])
+                     end;
+          s_gone := s_gone st |}, [])
   | Handshake p idx key =>
+      if is_gone st p then (st, []) else
       (* BeginSymmetricSession (responder): next := new (an older next is deleted), previous := nil;
          ReceivedWithKeypair on the confirmation: previous := current, current := next, next := nil *)
       ({| s_tbl := s_tbl st;
@@ -188,16 +195,27 @@ Definition step (st : state) (ev : event) : state * list res :=
                                       k_cur := Some {| k_idx := idx; k_key := key; k_age := 0; k_filter := fresh_filter |};
                                       k_next := None |}
                      | None => s_peers st
-                     end |}, [])
+                     end;
+          s_gone := s_gone st |}, [])
   | HandshakeUnconf p idx key =>
+      if is_gone st p then (st, []) else
       ({| s_tbl := s_tbl st;
           s_peers := match nth_error (s_peers st) (N.to_nat p) with
                      | Some x => set_nth (s_peers st) (N.to_nat p)
                                    {| k_prev := None; k_cur := k_cur x;
                                       k_next := Some {| k_idx := idx; k_key := key; k_age := 0; k_filter := sempty |} |}
                      | None => s_peers st
-                     end |}, [])
+                     end;
+          s_gone := s_gone st |}, [])
+  | Remove p =>
+      ({| s_tbl := List.filter (fun e => negb (e_owner e =? p)) (s_tbl st);
+          s_peers := match nth_error (s_peers st) (N.to_nat p) with
+                     | Some _ => set_nth (s_peers st) (N.to_nat p) {| k_prev := None; k_cur := None; k_next := None |}
+                     | None => s_peers st
+                     end;
+          s_gone := p :: s_gone st |}, [])
   | Restart =>
       ({| s_tbl := s_tbl st;
-          s_peers := map (fun _ => {| k_prev := None; k_cur := None; k_next := None |}) (s_peers st) |}, [])
+          s_peers := map (fun _ => {| k_prev := None; k_cur := None; k_next := None |}) (s_peers st);
+          s_gone := s_gone st |}, [])
   end.
